@@ -74,7 +74,22 @@ struct shared_origin
 namespace foonathan { namespace memory { template <> struct is_shared_allocator<shared_origin> : std::true_type {}; } }
 static origin_leaf* leaf_of(const origin_leaf& l) { return const_cast<origin_leaf*>(&l); }
 static origin_leaf* leaf_of(const shared_origin& l) { return l.o; }
+// a handle that declares it does not want to be propagated: std_allocator propagates all the same (documented: always)
+struct nonprop_origin : shared_origin
+{
+    using propagate_on_container_swap = std::false_type;
+    using propagate_on_container_move_assignment = std::false_type;
+    using propagate_on_container_copy_assignment = std::false_type;
+};
+namespace foonathan { namespace memory { template <> struct is_shared_allocator<nonprop_origin> : std::true_type {}; } }
+static origin_leaf* leaf_of(const nonprop_origin& l) { return l.o; }
+template <class T> static bool is_A(const std_allocator<T, origin_leaf>& a) { return &a.get_allocator() == &LA; }
+template <class T> static bool is_A(const std_allocator<T, shared_origin>& a) { return a.get_allocator().o == &LA; }
+template <class T> static bool is_A(const std_allocator<T, nonprop_origin>& a) { return a.get_allocator().o == &LA; }
+template <class T> static bool is_A(const any_std_allocator<T>& a) { return a == any_std_allocator<T>(LA); }
 template <class A> static A make_alloc(origin_leaf& l, A*);
+template <class T> static std_allocator<T, nonprop_origin> make_alloc(origin_leaf& l, std_allocator<T, nonprop_origin>*) { nonprop_origin h; h.o = &l; return std_allocator<T, nonprop_origin>(h); }
+template <class T> static any_std_allocator<T> make_alloc(origin_leaf& l, any_std_allocator<T>*) { return any_std_allocator<T>(l); }
 template <class T> static std_allocator<T, origin_leaf> make_alloc(origin_leaf& l, std_allocator<T, origin_leaf>*) { return std_allocator<T, origin_leaf>(l); }
 template <class T> static std_allocator<T, shared_origin> make_alloc(origin_leaf& l, std_allocator<T, shared_origin>*) { return std_allocator<T, shared_origin>(shared_origin{&l}); }
 
@@ -185,7 +200,7 @@ static void run_kind(const char* name, const std::vector<std::vector<std::string
     auto mk = [&](int k) { return new C(make_alloc(k < 2 ? LA : LB, static_cast<alloc_t*>(nullptr))); };
     C* c[4]; M m[4];
     for (int k = 0; k < 4; ++k) c[k] = mk(k);
-    auto which = [&](int k) { return leaf_of(c[k]->get_allocator().get_allocator()) == &LA ? 'A' : 'B'; };
+    auto which = [&](int k) { return is_A(c[k]->get_allocator()) ? 'A' : 'B'; };
     auto same = [&](int k) {
         std::vector<long> x(c[k]->begin(), c[k]->end()), y(m[k].begin(), m[k].end());
         if (!Sorted) { std::sort(x.begin(), x.end()); std::sort(y.begin(), y.end()); }
@@ -195,7 +210,7 @@ static void run_kind(const char* name, const std::vector<std::vector<std::string
     for (auto& t : script)
     {
         ++lineno;
-        if (t.size() < 3 || t[0] != (name[0] == 's' && name[1] == '_' ? name + 2 : name)) continue;
+        if (t.size() < 3 || t[0] != (name[1] == '_' ? name + 2 : name)) continue;
         const std::string& op = t[1]; int i = std::atoi(t[2].c_str()) & 3; int j = t.size() > 3 ? std::atoi(t[3].c_str()) & 3 : 0; long v = t.size() > 4 ? std::atol(t[4].c_str()) : (t.size() > 3 ? std::atol(t[3].c_str()) : 0);
         long e0 = g_errors;
         if (op == "ins") { ins(*c[i], v); insm(m[i], v); }
@@ -249,6 +264,18 @@ static int run_prog()
         using C = std::vector<long, std_allocator<long, shared_origin>>; using M = std::vector<long>;
         run_kind<C, M, true>("s_vector", script, [](C& c, long v) { c.push_back(v); }, [](M& c, long v) { c.push_back(v); }, [](C& c) { if (!c.empty()) c.pop_back(); }, [](M& c) { if (!c.empty()) c.pop_back(); }, false);
     }
+    {   // ... over a handle that declares propagate_on_container_* = false_type, and over type-erased references
+        using C = std::list<long, std_allocator<long, nonprop_origin>>; using M = std::list<long>;
+        run_kind<C, M, true>("p_list", script, [](C& c, long v) { c.push_back(v); }, [](M& c, long v) { c.push_back(v); }, [](C& c) { if (!c.empty()) c.pop_front(); }, [](M& c) { if (!c.empty()) c.pop_front(); }, true);
+    }
+    {
+        using C = std::list<long, any_std_allocator<long>>; using M = std::list<long>;
+        run_kind<C, M, true>("a_list", script, [](C& c, long v) { c.push_back(v); }, [](M& c, long v) { c.push_back(v); }, [](C& c) { if (!c.empty()) c.pop_front(); }, [](M& c) { if (!c.empty()) c.pop_front(); }, true);
+    }
+    {
+        using C = std::vector<long, any_std_allocator<long>>; using M = std::vector<long>;
+        run_kind<C, M, true>("a_vector", script, [](C& c, long v) { c.push_back(v); }, [](M& c, long v) { c.push_back(v); }, [](C& c) { if (!c.empty()) c.pop_back(); }, [](M& c) { if (!c.empty()) c.pop_back(); }, false);
+    }
     {
         using C = std::deque<long, std_allocator<long, origin_leaf>>; using M = std::deque<long>;
         run_kind<C, M, true>("deque", script, [](C& c, long v) { c.push_back(v); }, [](M& c, long v) { c.push_back(v); }, [](C& c) { if (!c.empty()) c.pop_front(); }, [](M& c) { if (!c.empty()) c.pop_front(); }, false);
@@ -287,6 +314,9 @@ static int run_prog()
         long e0 = g_errors;
         { auto p = allocate_shared<long>(LA, 5); auto q = allocate_shared<long>(LB, 6); std::swap(p, q); auto r = p; p.reset(); }
         { auto p = allocate_unique<long>(LA, 5); auto q = allocate_unique<long>(LB, 6); std::swap(p, q); p = std::move(q); }
+        // arrays: the deleter carries the allocator reference and the size through moves and swaps
+        { auto p = allocate_unique<long[]>(LA, 5); auto q = allocate_unique<long[]>(LB, 9); p = std::move(q); }
+        { auto p = allocate_unique<long[]>(LA, 3); auto q = allocate_unique<long[]>(LB, 4); std::swap(p, q); auto r = std::move(p); q = std::move(r); }
         // a constructor that throws (the type has a non-throwing default constructor): the node goes back where it came from
         struct Picky { long a[3]; Picky() noexcept {} explicit Picky(int) { throw 7; } };
         { try { auto p = allocate_unique<Picky>(LA, 1); } catch (int) {} try { auto p = allocate_shared<Picky>(LB, 1); } catch (int) {}
